@@ -144,7 +144,9 @@ class AbsTime(TD):
         return 0
 
     def __bool__(self):
-        return self.us != 0
+        if self.us != 0:        # branch: __bool__ must return a real bool
+            return True
+        return False
 
     def total_seconds(self):
         return AbsSecs(self.us)
@@ -287,6 +289,10 @@ class Clock:
         elif self.policy == "linear":
             # concrete positive multiplier per bpm value: us = ticks * m(bpm)
             us = ticks * self.mult[bpm]
+        elif self.policy == "affine":
+            # a concrete kernel stand-in depending on all three arguments:
+            # us = ticks * m(bpm) + (resolution if ticks > 0 else 0);  0 at 0, monotone in ticks
+            us = ticks * self.mult[bpm] + (resolution if ticks > 0 else 0)
         elif self.policy == "monotone":
             if not self.pool:
                 raise Poison("clock pool exhausted")
